@@ -36,12 +36,16 @@ type waitIn struct {
 	Init [][]any `json:"init"`
 	Ops  [][]any `json:"ops"`
 	Crd  []bool  `json:"crd,omitempty"`
+	Twin bool    `json:"twin,omitempty"` // the objects share name, namespace and kind and differ by API group only
 }
 
 // id of object i of this case
 func (in waitIn) id(i int) object.ObjMetadata {
 	if i < len(in.Crd) && in.Crd[i] {
 		return fromJid(jid{"", fmt.Sprintf("o%d", i), "apiextensions.k8s.io", "CustomResourceDefinition"})
+	}
+	if in.Twin {
+		return fromJid(jid{"ns", "o", []string{"", "apps", "extensions", "x.io", "y.io", "z.io", "w.io", "v.io"}[i%8], "ConfigMap"})
 	}
 	return waitID(i)
 }
@@ -314,7 +318,7 @@ func genObs(rng *proto.Rng, appliedUID string, appliedGen int) []any {
 }
 
 func genWaitCase(rng *proto.Rng, maxObjs, maxOps int) waitIn {
-	in := waitIn{Cond: rng.Intn(2), Ops: [][]any{}}
+	in := waitIn{Cond: rng.Intn(2), Ops: [][]any{}, Twin: rng.Chance(1, 4)}
 	n := 1 + rng.Intn(maxObjs)
 	for i := 0; i < n; i++ {
 		var o []any
